@@ -356,3 +356,86 @@ func VerifC15MixedNumbers() {
 	verifAssert((cxy < 0) == (xv < yv) && (cxy > 0) == (xv > yv), "C15/agrees-numeric float-mixed "+label)
 	verifCover("C15/mixed/end")
 }
+
+// VerifC15MinMax: min and max of a sequence of numbers or of strings are elements of it that no other element
+// undercuts / exceeds under the sort comparator.
+func VerifC15MinMax() {
+	n := verifChoice("n", verifParam("maxn", 3)) + 1
+	strs := verifChoice("strings", 2) == 1
+	L := verifParam("strlen", 2)
+	seq := vSeq()
+	var nodes []*CandidateNode
+	for i := 0; i < n; i++ {
+		var c *CandidateNode
+		if strs {
+			c = &CandidateNode{Kind: ScalarNode, Tag: "!!str", Value: verifStr("s"+verifItoa(int64(i)), L, "")}
+			seq.Content = append(seq.Content, vStr(c.Value))
+		} else {
+			v := verifInt64("e" + verifItoa(int64(i)))
+			c = &CandidateNode{Kind: ScalarNode, Tag: "!!int", Value: verifItoa(v)}
+			seq.Content = append(seq.Content, vInt(c.Value))
+		}
+		nodes = append(nodes, c)
+	}
+	wantMax := verifChoice("max", 2) == 1
+	op := "min"
+	if wantMax {
+		op = "max"
+	}
+	res, err := vEval(vParse(op), vDoc(seq))
+	verifAssert(err == nil && res.Len() == 1, "C15/minmax-error "+op)
+	if err != nil || res.Len() != 1 {
+		return
+	}
+	r := res.Front().Value.(*CandidateNode)
+	isElement := false
+	for _, c := range nodes {
+		isElement = verifOr(isElement, verifEqStr(c.Value, r.Value))
+		cmp := sortableNodeArray(nil).compare(r, c, vRFC3339)
+		if wantMax {
+			verifAssert(cmp >= 0, "C15/max-is-exceeded-by-an-element")
+		} else {
+			verifAssert(cmp <= 0, "C15/min-is-undercut-by-an-element")
+		}
+	}
+	verifAssert(isElement, "C15/minmax-result-is-not-an-element "+op)
+	verifCover("C15/minmax/end")
+}
+
+// VerifC15SortKeys: sort_keys changes key order only — same entries, keys ascending, each value still under its key.
+func VerifC15SortKeys() {
+	n := verifChoice("n", 4)
+	m := vMap()
+	var keys, vals []string
+	for i := 0; i < n; i++ {
+		k := verifStrN("k"+verifItoa(int64(i)), 1, "ad")
+		for _, p := range keys {
+			verifAssume(!verifEqStr(p, k))
+		}
+		v := verifStrN("v"+verifItoa(int64(i)), 1, "09")
+		keys, vals = append(keys, k), append(vals, v)
+		m.Content = append(m.Content, vStr(k), vInt(v))
+	}
+	res, err := vEval(vParse("sort_keys(.)"), vDoc(m))
+	verifAssert(err == nil && res.Len() == 1, "C15/sort-keys-error")
+	if err != nil || res.Len() != 1 {
+		return
+	}
+	out := res.Front().Value.(*CandidateNode)
+	verifAssert(out.Kind == MappingNode && len(out.Content) == 2*n, "C15/sort-keys-entry-count")
+	if out.Kind != MappingNode || len(out.Content) != 2*n {
+		return
+	}
+	for i := 0; i < n; i++ {
+		k, v := out.Content[2*i].Value, out.Content[2*i+1].Value
+		if i > 0 {
+			verifAssert(verifLessStr(out.Content[2*i-2].Value, k), "C15/sort-keys-not-ascending")
+		}
+		found := false
+		for j := range keys {
+			found = verifOr(found, verifAnd(verifEqStr(keys[j], k), verifEqStr(vals[j], v)))
+		}
+		verifAssert(found, "C15/sort-keys-separated-a-value-from-its-key")
+	}
+	verifCover("C15/sortkeys/end")
+}
